@@ -1,6 +1,6 @@
 (* Properties_C19.v — C19: matrix containers address every logical element exactly once.
    Property theorems only; proofs live in DenseProofs.v / SparseProofs.v. *)
-From Model Require Import Base Dense DenseProofs.
+From Model Require Import Base Dense DenseProofs Sparse SparseProofs.
 Local Open Scope nat_scope.
 
 (* every logical element of a dense matrix has its own in-range storage slot,
@@ -56,6 +56,68 @@ Theorem C19_padding_untouched :
     nth k (apply_at d (lay_real ly nrow ncol) g y) d = nth k y d.
 Proof. exact @apply_real_padding. Qed.
 Print Assumptions C19_padding_untouched.
+
+(* ---- sparse matrices: four orderings (CSR/CSC x standard/vector L>0), every pattern with
+   in-range elements, every block count.  The tables are the model of the constructors
+   (ordered element set, start table with the loop as coded, std::find lookup). ---- *)
+
+(* every pattern element of every block has a storage slot *)
+Theorem C19_sparse_defined :
+  forall o n pat nb, 0 < n -> (forall x, In x pat -> fst x < n /\ snd x < n) ->
+  forall b r c, b < nb -> In (r, c) pat -> exists k, sp_index o (sp_build (o_csc o) n pat) nb b r c = Ok k.
+Proof. exact sp_index_defined. Qed.
+Print Assumptions C19_sparse_defined.
+
+(* the slot is inside the storage vector *)
+Theorem C19_sparse_in_range :
+  forall o n pat nb, ord_ok o -> 0 < n -> (forall x, In x pat -> fst x < n /\ snd x < n) ->
+  forall b r c k, sp_index o (sp_build (o_csc o) n pat) nb b r c = Ok k ->
+                  k < sp_size o (sp_build (o_csc o) n pat) nb.
+Proof. exact sp_index_range. Qed.
+Print Assumptions C19_sparse_in_range.
+
+(* distinct (block, row, column) never alias *)
+Theorem C19_sparse_no_alias :
+  forall o n pat nb, ord_ok o -> 0 < n -> (forall x, In x pat -> fst x < n /\ snd x < n) ->
+  forall b r c b' r' c' k,
+    sp_index o (sp_build (o_csc o) n pat) nb b r c = Ok k ->
+    sp_index o (sp_build (o_csc o) n pat) nb b' r' c' = Ok k -> b = b' /\ r = r' /\ c = c'.
+Proof. exact sp_index_inj. Qed.
+Print Assumptions C19_sparse_no_alias.
+
+(* structural zeros are reported as zero and refuse access; out-of-range indices are refused *)
+Theorem C19_sparse_zero_and_range_errors :
+  forall o n pat nb, 0 < n -> (forall x, In x pat -> fst x < n /\ snd x < n) ->
+  forall b r c,
+    ((n <= r \/ n <= c -> sp_is_zero (o_csc o) (sp_build (o_csc o) n pat) r c = Err E_ElementOutOfRange) /\
+     (r < n -> c < n -> In (r, c) pat -> sp_is_zero (o_csc o) (sp_build (o_csc o) n pat) r c = Ok false) /\
+     (r < n -> c < n -> ~ In (r, c) pat -> sp_is_zero (o_csc o) (sp_build (o_csc o) n pat) r c = Ok true)) /\
+    ((n <= r \/ n <= c \/ nb <= b -> sp_index o (sp_build (o_csc o) n pat) nb b r c = Err E_ElementOutOfRange) /\
+     (r < n -> c < n -> b < nb -> ~ In (r, c) pat ->
+      sp_index o (sp_build (o_csc o) n pat) nb b r c = Err E_ZeroElementAccess)).
+Proof.
+  intros o n pat nb Hn Hpat b r c. split.
+  - apply (sp_is_zero_spec o n pat Hn Hpat).
+  - apply (sp_index_refused o n pat nb Hn Hpat).
+Qed.
+Print Assumptions C19_sparse_zero_and_range_errors.
+
+(* the start table as the code's loop leaves it: counts of smaller majors up to the last
+   non-empty major + 1, zero beyond (the "trailing empty rows" of DESIGN 8-7) *)
+Theorem C19_start_table :
+  forall n ms, 0 < n -> sorted_fst ms -> (forall x, In x ms -> fst x < n) ->
+    length (start_vector n ms) = n + 1 /\
+    (forall j, j <= last_major ms 0 + 1 -> nth j (start_vector n ms) 0 = count_lt ms j) /\
+    (forall j, last_major ms 0 + 1 < j -> nth j (start_vector n ms) 0 = 0).
+Proof. exact start_vector_spec. Qed.
+Print Assumptions C19_start_table.
+
+Example C19_sparse_example :
+  let o := mkOrd true (Some 2) in
+  let s := sp_build true 3 [(0,0); (2,0); (1,1); (0,0)] in
+  sp_start s = [0; 2; 3; 0] /\ sp_ids s = [0; 2; 1] /\
+  sp_index o s 3 2 2 0 = Ok 8 /\ sp_index o s 3 2 1 2 = Err E_ZeroElementAccess /\ sp_size o s 3 = 12.
+Proof. vm_compute. repeat split. Qed.
 
 (* non-vacuity: a 7 x 3 matrix in groups of 4 has a partial group; row 6 lives in group 1 lane 2 *)
 Example C19_example : vm_addr 4 3 6 1 = 18 /\ vm_size 4 7 3 = 24 /\
